@@ -3,6 +3,7 @@ module verifharness
 go 1.13
 
 require (
+	github.com/google/uuid v1.3.0
 	github.com/massnetorg/mass-core v0.0.0-20210816132538-be1c10e6c62a
 	github.com/syndtr/goleveldb v1.0.1-0.20210305035536-64b5b1c73954
 	massnet.org/mass v0.0.0
